@@ -5,6 +5,7 @@ uint64_t g_ntok, g_osize;
 uint64_t w_e_bits, w_e_word;
 uint32_t w_e_cnt, w_e_len;
 uint8_t *w_e_out;
+struct deflate_icf *w_e_first;
 #include "splice_defaults.h"
 #include "igzip/encode_df.c"
 
@@ -18,9 +19,3 @@ h_encode_deflate_icf_base(void)
         (void) r;
         VCANARY();
 }
-
-/* <stdio.h> (included by encode_df.c) defines L_ctermid, L_cuserid, L_tmpnam; the runner's anchor check takes
- * every L_* macro for a loop contract */
-#undef L_ctermid
-#undef L_cuserid
-#undef L_tmpnam
